@@ -291,10 +291,18 @@ class Run:
     def handle_sat(self, unit, name, line, sat):
         ob, r = sat[0]
         inputs, how = None, "none"
+        ctx_inputs = {}
         try:
             # the inputs were registered by the contract's setup on this path
             ctx_inputs = self.inputs_for(unit, ob)
-            if ctx_inputs:
+            if r.get("backend") == "cvc5" and isinstance(r.get("model"), dict):
+                # model of the second back end (strings): use it as it is; z3 is not
+                # asked again (its string solver does not honour time limits)
+                inputs, how = {}, "cvc5 model"
+                for name in ctx_inputs:
+                    if name in r["model"]:
+                        inputs[name] = _parse_smt_value(r["model"][name])
+            elif ctx_inputs:
                 inputs, how = minimise_model(ob, ctx_inputs)
         except Exception:
             inputs = None
@@ -312,7 +320,8 @@ class Run:
                 outcome = self.mod.replay(unit.name, inputs, name)
             except Exception:
                 outcome = {"failed": None, "detail": "replay harness error: " + traceback.format_exc()[-600:]}
-        if hasattr(self.mod, "replay") and not (outcome and outcome.get("failed")):
+        if hasattr(self.mod, "replay") and not (outcome and outcome.get("failed")) \
+                and r.get("backend") != "cvc5":
             # the smallest model did not fail on the real code: try further models
             try:
                 for cand in candidate_models(ob, ctx_inputs, limit=16, full=True):
@@ -408,6 +417,8 @@ class Run:
             n += 1
             if n > budget:
                 break
+            if hasattr(self.mod, "in_carve_out") and self.mod.in_carve_out(unit.name, inp):
+                continue      # a recorded known finding, not a new violation
             try:
                 out = self.mod.replay(unit.name, inp, "")
             except Exception:
@@ -552,6 +563,26 @@ class Run:
               f"wall {time.time() - self.t0:.1f}s")
         solve.close_pool()
         return code
+
+
+def _parse_smt_value(v):
+    v = v.strip()
+    if v.startswith('"') and v.endswith('"'):
+        return v[1:-1]
+    if v in ("true", "false"):
+        return v == "true"
+    try:
+        return int(v)
+    except ValueError:
+        pass
+    import re
+    m = re.fullmatch(r"\(/\s*(-?\d+)\s+(\d+)\)", v)
+    if m:
+        return int(m.group(1)) / int(m.group(2))
+    try:
+        return float(v)
+    except ValueError:
+        return v
 
 
 def _denan(w):
